@@ -4,6 +4,7 @@ usage: mocker.py SCENARIOS.json TRACES.json"""
 import asyncio
 import json
 import logging
+import zlib
 import os
 import sys
 
@@ -18,6 +19,9 @@ IDS = {'i0': 0, 'i1': 1, 'i2': 2, 'i3': 3, 's_empty': ''}
 RID = {(type(v).__name__, v): k for k, v in IDS.items()}
 PARAMS = {'pos': [1, 'x'], 'named': {'a': 1, 'b': 'x'}}
 E = ['e1', 'e2']
+# the real httpx client backend as the patched transport: endpoints an URL library would normalise (host case, default port, space)
+URLS = {'e1': 'http://Test-HOST.example:80/api v1', 'e2': 'http://test-host.example/other'}
+REV_URLS = {v: k for k, v in URLS.items()}
 M = ['m1', 'm2']
 
 
@@ -41,6 +45,7 @@ def a_reply(o):
 def a_calls(mocker):
     out = {e: {m: [] for m in M} for e in E}
     for e, d in mocker.calls.items():
+        e = REV_URLS.get(e, e)
         for (version, m), stub in d.items():
             if e in out and m in out[e]:
                 for c in stub.call_args_list:
@@ -54,7 +59,12 @@ def a_calls(mocker):
 
 
 def run(scn, kind, loop):
-    target = 'mocker_targets.%s._request' % ('AsyncClient' if kind == 'async' else 'SyncClient')
+    if kind == 'httpx':
+        target = 'pjrpc.client.backend.httpx.Client._request'
+        ep = URLS.get
+    else:
+        target = 'mocker_targets.%s._request' % ('AsyncClient' if kind == 'async' else 'SyncClient')
+        ep = lambda e: e        # noqa: E731
     mocker = PjRpcMocker(target, passthrough=scn['passthrough'])
     mocker.start()
     ev = []
@@ -80,23 +90,27 @@ def run(scn, kind, loop):
             k, replies = 'ok', []
             try:
                 if op['op'] == 'add':
-                    mocker.add(op['e'], op['m'], **patch_kwargs(op))
+                    mocker.add(ep(op['e']), op['m'], **patch_kwargs(op))
                 elif op['op'] == 'replace':
                     kw = patch_kwargs(op)
                     try:
-                        mocker.replace(op['e'], op['m'], idx=op['idx'], **kw)
+                        mocker.replace(ep(op['e']), op['m'], idx=op['idx'], **kw)
                     except (IndexError, KeyError):
                         tag[0] -= 1
                         raise
                 elif op['op'] == 'remove':
-                    mocker.remove(op['e'], None if op['m'] == 'all' else op['m'])
+                    mocker.remove(ep(op['e']), None if op['m'] == 'all' else op['m'])
                 elif op['op'] == 'reset':
                     mocker.reset()
                 else:
                     reqs = [{'jsonrpc': '2.0', 'method': r['m'], 'params': PARAMS[r['params']], 'id': IDS[r['id']]} for r in op['reqs']]
                     text = json.dumps(reqs if op['shape'] == 'batch' else reqs[0])
-                    cls = mocker_targets.AsyncClient if kind == 'async' else mocker_targets.SyncClient
-                    client = cls(op['e'])
+                    if kind == 'httpx':
+                        from pjrpc.client.backend import httpx as httpx_backend
+                        client = httpx_backend.Client(ep(op['e']))
+                    else:
+                        cls = mocker_targets.AsyncClient if kind == 'async' else mocker_targets.SyncClient
+                        client = cls(op['e'])
                     try:
                         res = client._request(text, False)
                         if asyncio.iscoroutine(res):
@@ -129,4 +143,6 @@ if __name__ == '__main__':
     for s in json.load(open(sys.argv[1])):
         out.append(guarded(run)(s, 'sync', loop))
         out.append(guarded(run)(s, 'async', loop))
+        if not s['passthrough'] and zlib.crc32(json.dumps(s, sort_keys=True).encode()) % 4 == 0:
+            out.append(guarded(run)(s, 'httpx', loop))      # the real transport would need a network: only where nothing is passed through
     json.dump(out, open(sys.argv[2], 'w'))
